@@ -24,6 +24,7 @@ CONSTANT QSeed      \* selects the query segments
 CONSTANT NQ         \* number of query segments per direction
 CONSTANT WithCells  \* emit the cell classes (levels G-1..G+1) and the cells met by every edge
 CONSTANT Prove      \* check the (expensive) local-rule theorems on every case
+CONSTANT Parts      \* the rectangles of a family are split into this many parts (work partition)
 
 SetMin(A) == CHOOSE x \in A : \A y \in A : x <= y
 SetMax(A) == CHOOSE x \in A : \A y \in A : x >= y
@@ -39,19 +40,24 @@ HolesIn == {h \in HoleRects : StrictlyInside(h, Hull)}
 RKey(r) == ((r.p[1] * 70 + r.p[2]) * 70 + r.p[3]) * 70 + r.p[4]
 
 \* ---- regions of mode "loop" -----------------------------------------------------------
-RegionsOf(fam) ==
-    CASE fam = "rect" -> {<<r>> : r \in AllRects}
-      [] fam = "face" -> {<<WholeFace>>}
-      [] fam = "hole1" -> {<<Hull, h>> : h \in HolesIn}
-      [] fam = "hole2" -> UNION {{<<Hull, h1, h2>> : h2 \in {h \in HolesIn : Separated(h1, h) /\ RKey(h1) < RKey(h)}} : h1 \in HolesIn}
-      [] fam = "island" -> {<<Hull, HoleHull, r>> : r \in {r \in HoleRects : StrictlyInside(r, HoleHull)}}
-      [] fam = "facehole" -> {<<WholeFace, r>> : r \in {r \in AllRects : StrictlyInside(r, WholeFace)}}
-      [] fam = "stair" -> {<<Stair(SetMin(XS), SetMin(YS), n)>> : n \in {n \in StairN : SetMin(XS) + n <= S /\ SetMin(YS) + n <= S}}
+PR(rs, part) == {r \in rs : RKey(r) % Parts = part}
+First(part, set) == IF part = 0 THEN set ELSE {}
+
+RegionsOf(fam, part) ==
+    CASE fam = "rect" -> {<<r>> : r \in PR(AllRects, part)}
+      [] fam = "face" -> First(part, {<<WholeFace>>})
+      [] fam = "hole1" -> {<<Hull, h>> : h \in PR(HolesIn, part)}
+      [] fam = "hole2" -> UNION {{<<Hull, h1, h2>> : h2 \in {h \in HolesIn : Separated(h1, h) /\ RKey(h1) < RKey(h)}} : h1 \in PR(HolesIn, part)}
+      [] fam = "island" -> {<<Hull, HoleHull, r>> : r \in {r \in PR(HoleRects, part) : StrictlyInside(r, HoleHull)}}
+      [] fam = "facehole" -> {<<WholeFace, r>> : r \in {r \in PR(AllRects, part) : StrictlyInside(r, WholeFace)}}
+      [] fam = "stair" -> First(part,
+                          {<<Stair(SetMin(XS), SetMin(YS), n)>> : n \in {n \in StairN : SetMin(XS) + n <= S /\ SetMin(YS) + n <= S}}
                           \cup {<<Hull, Stair(SetMin(XH), SetMin(YH), n)>> :
-                                    n \in {n \in StairN : StrictlyInside(Stair(SetMin(XH), SetMin(YH), n), Hull)}}
-      [] fam = "ell" -> UNION {{<<Ell(x0, y0, x1, y1, cx, cy)>> :
+                                    n \in {n \in StairN : StrictlyInside(Stair(SetMin(XH), SetMin(YH), n), Hull)}})
+      [] fam = "ell" -> First(part,
+                        UNION {{<<Ell(x0, y0, x1, y1, cx, cy)>> :
                                     cx \in {x \in XS : x0 < x /\ x < x1}, cy \in {y \in YS : y0 < y /\ y < y1}} :
-                                x0 \in XS, y0 \in YS, x1 \in XS, y1 \in YS}
+                                x0 \in XS, y0 \in YS, x1 \in XS, y1 \in YS})
 
 \* ---- shapes of mode "scene" -----------------------------------------------------------
 \* a polyline along grid lines: east from (x0,y0) to (x1,y0), then north to (x1,y1)
@@ -92,52 +98,52 @@ DotSet(face) ==
 
 OtherFace(f) == (f + 1) % 6
 
-ScenesOf(fam, face, step) ==
-    CASE fam = "one" -> {<<BasePoly(face, step)>>}
-      [] fam = "two" -> {<<BasePoly(face, step), Poly(face, <<r>>, step)>> : r \in AllRects}
-      [] fam = "polyline" -> {<<BasePoly(face, step), l>> : l \in Lines(face, step)}
+ScenesOf(fam, face, step, part) ==
+    CASE fam = "one" -> First(part, {<<BasePoly(face, step)>>})
+      [] fam = "two" -> {<<BasePoly(face, step), Poly(face, <<r>>, step)>> : r \in PR(AllRects, part)}
+      [] fam = "polyline" -> First(part, {<<BasePoly(face, step), l>> : l \in Lines(face, step)})
       [] fam = "four" -> {<<BasePoly(face, step), Poly(face, <<r>>, 1), l, DotSet(face)>> :
-                              r \in AllRects, l \in Lines(face, step)}
-      [] fam = "thin" -> {<<l, DotSet(face)>> : l \in Lines(face, step)} \cup {<<DotSet(face)>>}
-      [] fam = "compl" -> {<<Compl(Poly(face, <<r>>, step))>> : r \in AllRects}
-                          \cup {<<Compl(BasePoly(face, step)), l>> : l \in Lines(face, step)}
-                          \cup {<<Compl(BasePoly(face, step)), Poly(OtherFace(face), <<r>>, step)>> : r \in AllRects}
+                              r \in PR(AllRects, part), l \in Lines(face, step)}
+      [] fam = "thin" -> First(part, {<<l, DotSet(face)>> : l \in Lines(face, step)} \cup {<<DotSet(face)>>})
+      [] fam = "compl" -> {<<Compl(Poly(face, <<r>>, step))>> : r \in PR(AllRects, part)}
+                          \cup First(part, {<<Compl(BasePoly(face, step)), l>> : l \in Lines(face, step)})
+                          \cup {<<Compl(BasePoly(face, step)), Poly(OtherFace(face), <<r>>, step)>> : r \in PR(AllRects, part)}
       [] fam = "faces" -> {<<BasePoly(face, step), Poly(OtherFace(face), <<r>>, step), l>> :
-                              r \in AllRects, l \in Lines(OtherFace(face), step)}
+                              r \in PR(AllRects, part), l \in Lines(OtherFace(face), step)}
 
 \* ---- tilings (mode "tile") --------------------------------------------------------------
 \* guillotine partitions of the face into four rectangles; other families made of a rectangle,
 \* a hole in it and the rest of the face.  Each member is a region <<pieces>>.
-TilingsOf(fam) ==
+TilingsOf(fam, part) ==
     CASE fam = "guillotine" ->
             {<< <<Rect(0, 0, c, d1)>>, <<Rect(0, d1, c, S)>>, <<Rect(c, 0, S, d2)>>, <<Rect(c, d2, S, S)>> >> :
-                c \in XS \cap (1..(S - 1)), d1 \in YS \cap (1..(S - 1)), d2 \in YS \cap (1..(S - 1))}
+                c \in {c \in XS \cap (1..(S - 1)) : c % Parts = part}, d1 \in YS \cap (1..(S - 1)), d2 \in YS \cap (1..(S - 1))}
       [] fam = "ring" ->
             {<< <<WholeFace, Hull>>, <<Hull, h>>, <<h>> >> :
-                h \in {h \in HoleRects : StrictlyInside(h, Hull) /\ StrictlyInside(Hull, WholeFace)}}
-      [] fam = "wholeface" -> {<< <<WholeFace>> >>}
+                h \in {h \in PR(HoleRects, part) : StrictlyInside(h, Hull) /\ StrictlyInside(Hull, WholeFace)}}
+      [] fam = "wholeface" -> First(part, {<< <<WholeFace>> >>})
       \* all cells of level G, each as its own loop
-      [] fam = "cells" -> {[k \in 1..(S * S) |-> LET i == (k - 1) % S  j == (k - 1) \div S IN <<Rect(i, j, i + 1, j + 1)>>]}
+      [] fam = "cells" -> First(part, {[k \in 1..(S * S) |-> LET i == (k - 1) % S  j == (k - 1) \div S IN <<Rect(i, j, i + 1, j + 1)>>]})
       \* horizontal strips of cells between the window's y coordinates
-      [] fam = "strips" -> {LET ys == SetToSortSeq(YS \cup {0, S}, <)
-                            IN  [k \in 1..(Len(ys) - 1) |-> <<Rect(0, ys[k], S, ys[k + 1])>>]}
+      [] fam = "strips" -> First(part, {LET ys == SetToSortSeq(YS \cup {0, S}, <)
+                                         IN  [k \in 1..(Len(ys) - 1) |-> <<Rect(0, ys[k], S, ys[k + 1])>>]})
 
-\* three levels: <<face>> -> <<face, family, step, kv>> -> the case; the cases of one second-level
-\* state are generated and checked by one worker
+\* three levels: <<face>> -> <<face, family, step, kv, part>> -> the case; the cases of one
+\* second-level state are generated and checked by one worker
 VARIABLE t
 Init == t \in {<<f>> : f \in Faces}
 Next ==
     \/ /\ Len(t) = 1
-       /\ t' \in {<<t[1], fam, st, kv>> : fam \in Families, st \in Steps, kv \in KVs}
-    \/ /\ Len(t) = 4
+       /\ t' \in {<<t[1], fam, st, kv, part>> : fam \in Families, st \in Steps, kv \in KVs, part \in 0..(Parts - 1)}
+    \/ /\ Len(t) = 5
        /\ \/ /\ Mode = "loop"
-             /\ t' \in {<<t[1], "loop", pcs, t[3], t[4]>> : pcs \in RegionsOf(t[2])}
+             /\ t' \in {<<t[1], "loop", pcs, t[3], t[4], t[5]>> : pcs \in RegionsOf(t[2], t[5])}
           \/ /\ Mode = "scene"
-             /\ t' \in {<<t[1], "scene", sc, t[3], t[4]>> : sc \in ScenesOf(t[2], t[1], t[3])}
+             /\ t' \in {<<t[1], "scene", sc, t[3], t[4], t[5]>> : sc \in ScenesOf(t[2], t[1], t[3], t[5])}
           \/ /\ Mode = "tile"
-             /\ t' \in {<<t[1], "tile", fm, t[3], t[4]>> : fm \in TilingsOf(t[2])}
+             /\ t' \in {<<t[1], "tile", fm, t[3], t[4], t[5]>> : fm \in TilingsOf(t[2], t[5])}
 
-Full == Len(t) = 5
+Full == Len(t) = 6
 Face == t[1]
 Step == t[4]
 KV == t[5]
